@@ -60,7 +60,7 @@ Plan generate_plan(const std::string &prop, const std::string &tier, uint64_t ba
     if (p.mode == "seq") {
         int n = (int)p.cfg.get("nops", 40);
         std::vector<Op> ops;
-        bool swarm_faults = (prop == "C11" && r.chance(1, 3)) || (prop == "C15");
+        bool swarm_faults = (prop == "C15");   // C11 is about fault-free histories; memory errors under ENOMEM belong to C15
         int frate = swarm_faults ? r.pick(std::vector<int>{3, 6, 12}) : 0;
         for (int i = 0; i < n; i++) {
             Op op = w->gen_op(r, prop, p.mode, g);
@@ -288,6 +288,10 @@ static void run_threads_body(const Plan &p, World &w, Ctx &x, RunOut &out, bool 
         if (so.deadlock) {
             x.cur_opname = "schedule";
             x.fail("no-progress", "lock", "every live thread waits for the container lock and nobody will release it");
+        }
+        if (so.leaked_depth != 0) {
+            x.cur_opname = "schedule";
+            x.fail("lock-depth", "lock", "a client thread finished its operations still holding the container lock");
         }
         if (stop) throw Abort();
         std::string final_dump = w.sut_dump(x);
